@@ -185,6 +185,18 @@ func toArrayStr(data interface{}) ([]string, bool) {
 	return nil, false
 }
 
+// nilIfNilPtr maps a nil pointer found in user provided Go data to an
+// untyped nil, so that it behaves like a JSON null everywhere.
+func nilIfNilPtr(v interface{}) interface{} {
+	if v == nil {
+		return nil
+	}
+	if rv := reflect.ValueOf(v); rv.Kind() == reflect.Ptr && rv.IsNil() {
+		return nil
+	}
+	return v
+}
+
 func isSliceType(v interface{}) bool {
 	if v == nil {
 		return false
